@@ -319,6 +319,7 @@ def gen_cases(rng, n):
 
 
 # ------------------------------------------------------------------ implementation
+RUNAWAY = 5000          # log entries at one virtual time after which the service is declared spinning
 HANG_SECONDS = 20       # wall-clock watchdog per case (a healthy case takes milliseconds)
 
 
@@ -347,6 +348,8 @@ class TimedLog(list):
     def append(self, entry):
         if self.clock.on:
             list.append(self, [self.clock.now()] + list(entry))
+            if len(self) > RUNAWAY and self[-RUNAWAY][0] == self[-1][0]:
+                raise _Hang()       # the service keeps acting without virtual time advancing
 
     def touch(self):
         self.append(["t"])
@@ -355,6 +358,8 @@ class TimedLog(list):
 def _exc_kind(e):
     while hasattr(e, "exceptions") and len(e.exceptions) == 1:
         e = e.exceptions[0]
+    if isinstance(e, _Hang):
+        return "hang"
     return "norule" if isinstance(e, TypeError) else "other:%s" % type(e).__name__
 
 
@@ -459,7 +464,8 @@ def run_impl(case):
         fired.append(1)
         raise _Hang()
     old = signal.signal(signal.SIGALRM, on_alarm)
-    signal.setitimer(signal.ITIMER_REAL, HANG_SECONDS if not _hangs else 3)
+    # repeating: a single exception may land where it is swallowed (a __del__, an except clause)
+    signal.setitimer(signal.ITIMER_REAL, HANG_SECONDS if not _hangs else 3, 0.2)
     try:
         trio.run(main, clock=trio.testing.MockClock(autojump_threshold=0))
     except BaseException:
